@@ -16,16 +16,18 @@ def ckey(s):
 
 def build_obs(tier, tables=None):
     obs = []
-    def add(fn, shape):
-        defs = ["-DFN=%d" % fn, '-DSHAPE="%s"' % shape]
+    def add(fn, shape, cap=8):
+        defs = ["-DFN=%d" % fn, '-DSHAPE="%s"' % shape] + (["-DCAP=%d" % cap] if cap != 8 else [])
         nseg = shape.count("|") + 1
-        npar = max(2, shape.count("q") + shape.count("e") + shape.count("x") + 2)
+        npar = max(2, shape.count("q") + shape.count("e") + shape.count("x") + 2, shape.count("D") + 4 if "D" in shape else 0)
         obs.append(Ob("path-fn%d-%s" % (fn, ckey(shape)), "path_res.c", defs, unwind=4,
                       unwindset=["cfg_getopt_secidx.0:%d" % (nseg + 1), "parse_title.0:%d" % npar] + ["ref_walk.%d:%d" % (k, len(shape) + 2) for k in range(0, 8)] +
-                                ["v_strndup8.0:9", "strcspn.0:10", "strspn.0:10", "strlen.0:10", "cfg_getopt_leaf.0:6", "ref_leaf.0:6", "main.0:10", "main.1:6", "alloc_values.0:4",
+                                ["v_strndup8.0:%d" % (cap + 1), "strcspn.0:%d" % (cap + 4), "strspn.0:%d" % (cap + 4), "strcspn.1:%d" % (cap + 4), "strspn.1:%d" % (cap + 4), "strlen.0:%d" % (cap + 4), "cfg_getopt_leaf.0:6", "ref_leaf.0:6", "main.0:%d" % max(10, len(shape) + 2), "strtol.0:%d" % (cap + 4), "strtol.1:%d" % (cap + 4), "main.1:6", "alloc_values.0:4",
                                  "strcpy.0:6", "memcmp.0:9", "strcmp.0:9", "v_memmove.0:4", "cfg_opt_gettsecidx.0:4"],
                       checks="none", must_reach=("end of harness",), timeout=300,
                       params={"entry_point": {1: "cfg_getopt", 2: "cfg_getsec", 3: "cfg_rmsec", 4: "cfg_setint"}[fn], "shape": shape}))
+    # a ten-digit index qualifier (values beyond unsigned int: 4294967296 must not alias instance 0)
+    add(2, "N=DDDDDDDDDD", cap=16)
     for sh in SHAPES_OPT:
         add(1, sh)
     for sh in SHAPES_SEC:
